@@ -22,8 +22,9 @@ LargeInt EvalStrIntExpressionWithFlags(const struct sStrComp* pExpr, IntType Typ
 { (void)pExpr; (void)Type; *pResult = True; *pFlags = eSymbolFlag_None; return (LargeInt)in_val[cur]; }
 LargeInt EvalStrIntExpression(const struct sStrComp* pExpr, IntType Type, Boolean* pResult)
 { (void)pExpr; (void)Type; *pResult = True; return (LargeInt)in_val[cur]; }
-void NewRecord(LargeWord NStart) { (void)NStart; }
-void WriteBytes(void) {}
+/* as.c WriteCode() cut to its contract (checked against the real function in C04 'writecode'):
+   outside a structure definition the active segment's counter advances by CodeLen */
+void WriteCode(void) { PCs[ActPC] = PCs[ActPC] + CodeLen; PCsUsed[ActPC] = True; }
 char* as_strdup(char const* s) { (void)s; return (char*)malloc(2); }
 tLstMacroExp GetLstMacroExp(void) { return eLstMacroExpAll; }
 void SetLstMacroExp(tLstMacroExp n) { (void)n; }
@@ -84,7 +85,14 @@ void harness(void)
       case O_ALIGN:
       {
         LargeWord n = v, target;
-        ASSUME(n >= 1 && n <= 0xffff);                   /* ALIGN 0: see C03 */
+        ASSUME(n <= 0xffff);
+        if (n == 0)
+        {
+          ArgCnt = 1; CodeALIGN(0);
+          CHECK(diag_errs == 1 && CodeLen == 0, "ALIGN 0 is rejected with an error");
+          WITNESS("align 0 rejected");
+          return;
+        }
 #ifdef ALIGN_BELOW_2G
         ASSUME(e < 0x7fff0000ull);
 #else
